@@ -16,6 +16,7 @@ import (
 	"strings"
 	"sync"
 	"sync/atomic"
+	"syscall"
 	"time"
 )
 
@@ -487,6 +488,13 @@ func Guard(f func()) (kind, frame string, panicked bool) {
 }
 
 // Watchdog detects a single case that runs far longer than any legitimate one.
+//
+// The limit is NOT a wall-clock oracle. A case is charged "virtual time": wall time scaled by the share of a
+// processor its worker can have had. While the machine has idle processors the share is 1 (a call that does not
+// return — spinning or blocked — is overdue after `limit`). When the machine is saturated (other jobs, other
+// checks) the share is processCPU/(wall*busyWorkers), so a process that is being starved, stopped or stalled does
+// not turn slowness into "non-termination"; a tick that itself arrives late is charged as one tick. A call that
+// really never returns keeps consuming its share and is still reported, only later.
 type Watchdog struct {
 	slots []wdSlot
 	limit time.Duration
@@ -499,26 +507,66 @@ type wdSlot struct {
 	_     [40]byte
 }
 
-var coarseNow int64 // updated every 20 ms; cheap clock for the watchdog
-
 // NewWatchdog starts a watchdog over n worker slots; on is called (once) with the
-// descriptor of a case that exceeded limit.
+// descriptor of a case whose virtual running time exceeded limit.
 func NewWatchdog(n int, limit time.Duration, on func(desc string)) *Watchdog {
 	w := &Watchdog{slots: make([]wdSlot, n), limit: limit, on: on}
-	atomic.StoreInt64(&coarseNow, time.Now().UnixNano())
 	go func() {
+		const tick = time.Second
+		last := make([]int64, n)
+		virt := make([]time.Duration, n)
+		prevWall := time.Now()
+		prevCPU := processCPU()
+		prevIdle, prevTotal := systemCPU()
 		for {
-			time.Sleep(20 * time.Millisecond)
-			atomic.StoreInt64(&coarseNow, time.Now().UnixNano())
-		}
-	}()
-	go func() {
-		for {
-			time.Sleep(time.Second)
-			now := time.Now().UnixNano()
+			time.Sleep(tick)
+			now := time.Now()
+			wall := now.Sub(prevWall)
+			prevWall = now
+			cpu := processCPU()
+			cpuDelta := cpu - prevCPU
+			prevCPU = cpu
+			idle, total := systemCPU()
+			idleFrac := -1.0
+			if total > prevTotal {
+				idleFrac = float64(idle-prevIdle) / float64(total-prevTotal)
+			}
+			prevIdle, prevTotal = idle, total
+			busy := 0
+			for i := range w.slots {
+				if atomic.LoadInt64(&w.slots[i].start) != 0 {
+					busy++
+				}
+			}
+			share := 1.0
+			if idleFrac < 0.10 { // saturated (or unknown): we may not be getting the processors we ask for
+				if busy > 0 && wall > 0 {
+					share = float64(cpuDelta) / (float64(wall) * float64(busy))
+				}
+				if share > 1 {
+					share = 1
+				}
+				if share < 0.02 {
+					share = 0.02
+				}
+			}
+			charge := wall
+			if charge > tick+tick/2 { // the tick itself was late: the whole process was not running
+				charge = tick
+			}
+			charge = time.Duration(float64(charge) * share)
 			for i := range w.slots {
 				s := atomic.LoadInt64(&w.slots[i].start)
-				if s != 0 && time.Duration(now-s) > limit {
+				if s == 0 {
+					last[i], virt[i] = 0, 0
+					continue
+				}
+				if s != last[i] {
+					last[i], virt[i] = s, 0
+					continue
+				}
+				virt[i] += charge
+				if virt[i] > limit {
 					d, _ := w.slots[i].desc.Load().(func() string)
 					desc := "?"
 					if d != nil {
@@ -533,14 +581,49 @@ func NewWatchdog(n int, limit time.Duration, on func(desc string)) *Watchdog {
 	return w
 }
 
+var wdSeq int64
+
 // Begin marks slot i as running a case described (lazily) by desc.
 func (w *Watchdog) Begin(i int, desc func() string) {
 	w.slots[i].desc.Store(desc)
-	atomic.StoreInt64(&w.slots[i].start, atomic.LoadInt64(&coarseNow))
+	atomic.StoreInt64(&w.slots[i].start, atomic.AddInt64(&wdSeq, 1)) // a fresh non-zero stamp per case
 }
 
 // End marks slot i idle.
 func (w *Watchdog) End(i int) { atomic.StoreInt64(&w.slots[i].start, 0) }
+
+// processCPU is the CPU time (user+system) this process has consumed.
+func processCPU() time.Duration {
+	var ru syscall.Rusage
+	if syscall.Getrusage(syscall.RUSAGE_SELF, &ru) != nil {
+		return 0
+	}
+	return time.Duration(ru.Utime.Nano() + ru.Stime.Nano())
+}
+
+// systemCPU returns the machine's cumulative idle and total jiffies from /proc/stat (0,0 if unavailable).
+func systemCPU() (idle, total uint64) {
+	b, err := os.ReadFile("/proc/stat")
+	if err != nil {
+		return 0, 0
+	}
+	line := string(b)
+	if k := strings.IndexByte(line, '\n'); k >= 0 {
+		line = line[:k]
+	}
+	f := strings.Fields(line)
+	if len(f) < 6 || f[0] != "cpu" {
+		return 0, 0
+	}
+	for k, x := range f[1:] {
+		v, _ := strconv.ParseUint(x, 10, 64)
+		total += v
+		if k == 3 || k == 4 { // idle, iowait
+			idle += v
+		}
+	}
+	return idle, total
+}
 
 // ParallelFor runs f(i) for i in [0,n) on Workers() goroutines; f receives the worker slot.
 func ParallelFor(n int, f func(slot, i int)) {
